@@ -96,4 +96,31 @@ theorem allIdx_length (varss : List (List Var)) : (allIdx varss).length = varss.
       (fun i => by rw [mem_allIdx, List.mem_range])
   simpa using hperm.length_eq
 
+/-- every `constraint_connections` entry lists a constraint -/
+theorem cc_nonempty_loop : ∀ (l : List (List Var × Nat)) (st : SplitSt), (∀ v C, alGet? st.cc v = some C → C ≠ []) →
+    ∀ v C, alGet? (l.foldl (fun st p => splitStep st p.2 p.1) st).cc v = some C → C ≠ []
+  | [], _, h => h
+  | p :: rest, st, h => by
+    simp only [List.foldl_cons]
+    refine cc_nonempty_loop rest _ ?_
+    intro v C hv
+    rw [cc_splitStep] at hv
+    split at hv
+    · cases hv
+      intro hnil
+      have : p.2 ∈ stepCs st p.2 p.1 := (mem_stepCs st p.2 p.1 p.2).mpr (Or.inl rfl)
+      rw [hnil] at this; cases this
+    · exact h v C hv
+
+/-- a group of `_split_constraints` has a constraint -/
+theorem groups_nonempty (varss : List (List Var)) (g : List Var × List Nat) (hg : g ∈ groupsOf varss) : g.2 ≠ [] := by
+  obtain ⟨p, hp, rfl⟩ := (groupsOf_spec varss).1 g |>.mp hg
+  obtain ⟨_, C, hC⟩ := entry_facts varss p hp
+  have hne := cc_nonempty_loop (varss.zipIdx) {} (fun v C h => by cases h) p.1 C hC
+  obtain ⟨i, rest, rfl⟩ := List.exists_cons_of_ne_nil hne
+  intro hnil
+  have : i ∈ (groupOf (finalSt varss) p).2 := by
+    simp only [groupOf, hC, Option.getD_some, mem_sortDedup]; simp
+  rw [hnil] at this; cases this
+
 end Claripy.Solver
